@@ -357,7 +357,8 @@ type CredentialResponse struct {
 }
 
 func (hb HTTPClient) VerifiableCredentials(ctx context.Context, credentialEndpoint string, accessToken string, proofJwt string) (*CredentialResponse, error) {
-	credentialEndpointURL, err := url.Parse(credentialEndpoint)
+	// the credential endpoint is taken from the (remote) issuer metadata: validate it like every other remote endpoint
+	credentialEndpointURL, err := core.ParsePublicURL(credentialEndpoint, hb.strictMode)
 	if err != nil {
 		return nil, err
 	}
